@@ -723,6 +723,7 @@ func oracle(sc scenario, x *gate.Exec, rec *recorder, callers []*caller) {
 
 func TestCheck(t *testing.T) {
 	r := rep.New("C13", "exploration")
+	gate.ReportHangs(r)
 	seed := r.Seed()
 	if seed == 0 {
 		seed = 1
